@@ -46,6 +46,10 @@ type ChunkIterators struct {
 	estimateSize  int
 	maxN          int
 
+	// orderBySeq: the files overlap in time (out-of-order files). The chunks of one series are
+	// then merged oldest file first, so that the rows of a newer file replace those of an older one
+	orderBySeq bool
+
 	log *Log.Logger
 }
 
@@ -89,6 +93,14 @@ func (c *ChunkIterators) Less(i, j int) bool {
 	jID := c.itrs[j].id
 	if iID != jID {
 		return iID < jID
+	}
+
+	if c.orderBySeq {
+		_, iSeq := c.itrs[i].r.LevelAndSequence()
+		_, jSeq := c.itrs[j].r.LevelAndSequence()
+		if iSeq != jSeq {
+			return iSeq < jSeq
+		}
 	}
 
 	return c.itrs[i].merge.MinTime(true) < c.itrs[j].merge.MinTime(true)
